@@ -886,17 +886,21 @@ time_zone::civil_lookup TimeZoneInfo::TimeLocal(const civil_second& cs,
                                                 year_t c4_shift) const {
   assert(last_year_ - 400 < cs.year() && cs.year() <= last_year_);
   time_zone::civil_lookup cl = MakeTime(cs);
-  if (c4_shift > seconds::max().count() / kSecsPer400Years) {
-    cl.pre = cl.trans = cl.post = time_point<seconds>::max();
-  } else {
-    const auto offset = seconds(c4_shift * kSecsPer400Years);
-    const auto limit = time_point<seconds>::max() - offset;
-    for (auto* tp : {&cl.pre, &cl.trans, &cl.post}) {
-      if (*tp > limit) {
+  // Shift each result forward by c4_shift 400-year cycles, saturating at
+  // max(). The unshifted results may precede the epoch, in which case the
+  // sum can be representable although the whole shift is not, so the shift
+  // is applied in steps that are individually representable.
+  const year_t max_step = seconds::max().count() / kSecsPer400Years;
+  for (auto* tp : {&cl.pre, &cl.trans, &cl.post}) {
+    for (year_t left = c4_shift; left > 0;) {
+      const year_t step = left < max_step ? left : max_step;
+      const auto offset = seconds(step * kSecsPer400Years);
+      if (*tp > time_point<seconds>::max() - offset) {
         *tp = time_point<seconds>::max();
-      } else {
-        *tp += offset;
+        break;
       }
+      *tp += offset;
+      left -= step;
     }
   }
   return cl;
